@@ -63,7 +63,7 @@ CHECKS["C05"] = {
     "assumptions": ["attacker values are recognisable (prefix spoof-) and never collide with real fingerprints"],
     "units": [{"name": "c05", "pkg": "c05", "run": "^Test", "shards": 8},
               {"name": "c05w", "pkg": ".", "overlay": "root", "run": "^TestVerifWiringC05$", "shards": 2}],
-    "expect_checks": ["c05.spoof", "c05.wiring"],
+    "expect_checks": ["c05.spoof", "c05.first-requests", "c05.wiring"],
 }
 
 CHECKS["C09"] = {
@@ -75,7 +75,7 @@ CHECKS["C09"] = {
     "assumptions": ["lists are compared after splitting on commas and trimming blanks, the form net/http joins them in"],
     "units": [{"name": "c09", "pkg": "c09", "run": "^Test", "shards": 8},
               {"name": "c09w", "pkg": ".", "overlay": "root", "run": "^TestVerifWiringC09$", "shards": 2}],
-    "expect_checks": ["c09.forwarding", "c09.wiring"],
+    "expect_checks": ["c09.forwarding", "c09.concurrent", "c09.wiring"],
 }
 
 CHECKS["C15"] = {
